@@ -236,6 +236,10 @@ def vec_push(c):
         _set_len(c, c.args[0], n.e)
     else:
         _set_len(c, c.args[0], ln + 1, add_item=c.args[1] if len(c.args) > 1 else None)
+        if c.it.track_content and isinstance(c.args[0], Ref):
+            from absint.interp import event
+            a0 = c.args[0]
+            event(c.st, "push", "%s%s" % (a0.cell.rsplit(":", 1)[-1], "".join(".%s" % (p[1],) for p in a0.path)), c.args[1] if len(c.args) > 1 else TOP)
     return [(c.st, Struct())]
 
 
@@ -681,6 +685,11 @@ def byteorder_rw(c):
             e = Lin.var(name)
             c.st.sys.add_range(e, lo_, hi_)
             c.it.purefun[name] = set(w[1].t)
+            c.it.contents.setdefault("reads", {})[name] = (w[0], w[1], n)
+            if c.it.track_content:
+                # the value read and where it was read stay among the facts of the path
+                # (one cell per read site: the latest read there; joins across loop iterations keep what they agree on)
+                c.st.cells["ghost:rd:%s:%d:%s:%d" % (c.fr.body.key, c.bb, w[0], n)] = Struct({0: Num(e), 1: Num(w[1])})
             return [(c.st, Num(e))]
         return [(c.st, c.top_ret())]
     dst = c.deref(c.args[0])
@@ -1014,7 +1023,8 @@ def try_into(c):
             rt = c.ret_ty()
             # Ok(&[T;N]) or Ok([T;N])
             cell = "%s/%d.%d:arr" % (c.fr.id, c.bb, c.part)
-            okp = Seq(Lin.const(n))
+            sv_ = c.deref(c.args[0])
+            okp = Seq(Lin.const(n), None, None, None, sv_.content() if isinstance(sv_, Seq) else None)     # the same bytes
             args = rt.get("args", [])
             inner = c.fr.body.ty(args[0]) if args else {}
             if inner.get("k") == "ref":
